@@ -18,7 +18,7 @@ import (
 // a spanning cell was taken from the vertical component: the columns came out narrower than the content.)
 func c13SpacingAxis(c *core.Check) {
 	p := c.Prog
-	r := c.Rule("R19", "the component of border-spacing matches the axis it is used on: every GetBorderSpacing()[k] with constant k in html/layout whose use shows an axis (multiplied by a count derived from Colspan or Rowspan, stored in a variable named …X/…Y or …Horizontal…/…Vertical…, or read in a function named …Widths) has k = 0 for the horizontal axis and k = 1 for the vertical one", 4)
+	r := c.Rule("R19", "the component of border-spacing matches the axis it is used on: every GetBorderSpacing()[k] with constant k in html/layout whose use shows an axis (multiplied by a count derived from Colspan or Rowspan, stored in a variable named …X/…Y or …Horizontal…/…Vertical…, or read in a function named …Widths) has k = 0 for the horizontal axis and k = 1 for the vertical one", 3)
 	n := 0
 	for _, fn := range p.FuncsOfPkg("html/layout") {
 		fn := fn
